@@ -77,6 +77,13 @@ fn main() {
         let code = rv::c12::case_main(&args.extra[0], k, &args.extra[2]);
         std::process::exit(code);
     }
+    if cmd == "replay" {
+        let code = match args.extra.first() {
+            Some(f) => rv::replay::main(f),
+            None => 2,
+        };
+        std::process::exit(code);
+    }
     if cmd == "runxml" {
         // debugging aid: rv runxml <file.scxml> [event…] prints the recorded log of one run
         let xml = std::fs::read_to_string(&args.extra[0]).expect("file");
